@@ -9,7 +9,7 @@ FUNCS = ['RangeProof::verify_batch', 'RangeProof::verify', 'RangeProofTranscript
 
 def batches(tier):
     import itertools
-    b = [(8, 1, [(1, 1), (2, 2)]), (8, 1, [(1, 1), (1, 1)]), (4, 2, [(2, 2), (2, 2), (1, 1)]), (2, 6, [(1, 1), (1, 1)])]
+    b = [(8, 1, [(1, 1), (2, 2)]), (8, 1, [(1, 1), (1, 1)]), (4, 2, [(2, 2), (2, 2), (1, 1)]), (2, 6, [(1, 1), (1, 1)]), (2, 1, [(8, 8), (1, 8)])]
     # three different aggregation factors under one capacity, in EVERY order (which member is the largest, and where it stands, matters to the verifier)
     b += [(2, 2 if i == 0 else 1, list(p)) for i, p in enumerate(itertools.permutations([(2, 4), (1, 4), (4, 4)]))]
     if tier != 'quick':
